@@ -13,7 +13,6 @@ import (
 	"bufio"
 	"fmt"
 	"io"
-	stdlog "log"
 	"net"
 	"net/http"
 	"net/http/httptest"
@@ -174,12 +173,16 @@ type vc19COne struct {
 	err    error
 	peer   netip.Addr
 	target string
+
+	// local404: the request must be answered locally with 404.
+	local404 bool
 }
 
 func TestVerifC19Concurrent(t *testing.T) {
 	st := vstat.New("C19", "websvc.concurrent",
-		"rapid draws K=2..8 forwardable requests (the four documented shapes, unique device-id tag, forged forwarding / client-IP / Connection header sets) from pairwise distinct loopback peers (127.0.0.1-127.0.0.8, ::1) to one linkedIPHandler; a barrier releases all K into the handler at once and the recording backend holds each until all K are inside it; per request: exactly one X-Connecting-IP equal to its own socket peer, no marker in a forwarding header, its own method and path; non-trivial = at least two requests from different peers were inside the backend handler simultaneously; distinct by the multiset of (peer, shape, header names)",
-		"overlap>=2-distinct-peers", "overlap=all", "round-has-ipv4-and-ipv6", "k>=5", "forged-header-in-round")
+		"rapid draws K=2..8 requests (the four documented shapes, unique device-id tag, forged forwarding / client-IP / Connection header sets; from the third on a member may instead be a one-component near miss that must get a local 404 while the others are in flight) from pairwise distinct loopback peers (127.0.0.1-127.0.0.8, ::1) to one linkedIPHandler; a barrier releases all K into the handler at once and the recording backend holds each until all K are inside it; per request: exactly one X-Connecting-IP equal to its own socket peer, no marker in a forwarding header, its own method and path; non-trivial = at least two requests from different peers were inside the backend handler simultaneously; distinct by the multiset of (peer, shape, header names)",
+		"overlap>=2-distinct-peers", "overlap=all", "round-has-ipv4-and-ipv6", "k>=5", "forged-header-in-round",
+		"round-has-locally-answered-member")
 	st.Finish(t)
 
 	backend := &vc19CBackend{}
@@ -194,15 +197,9 @@ func TestVerifC19Concurrent(t *testing.T) {
 			t.Fatalf("harness: parsing backend url: %s", err)
 		}
 
-		fr := &vc19CFront{base: base, tap: &vc19CTap{h: linkedIPHandler(apiURL, errs, "vc19c"+base, 5*time.Second)}}
-		srv := &http.Server{
-			Handler:           fr.tap,
-			ErrorLog:          stdlog.New(io.Discard, "", 0),
-			ReadTimeout:       30 * time.Second,
-			WriteTimeout:      30 * time.Second,
-			IdleTimeout:       30 * time.Second,
-			ReadHeaderTimeout: 30 * time.Second,
-		}
+		srv := vc19NewServer(t, apiURL, errs, 30*time.Second)
+		fr := &vc19CFront{base: base, tap: &vc19CTap{h: srv.Handler}}
+		srv.Handler = fr.tap
 
 		wg := &sync.WaitGroup{}
 		l4, err := net.Listen("tcp4", "127.0.0.1:0")
@@ -245,8 +242,18 @@ func TestVerifC19Concurrent(t *testing.T) {
 		round++
 		ones := make([]*vc19COne, k)
 		anyForged := false
+		nFwd := 0
 		for i := range ones {
 			o := &vc19COne{req: &vc19Req{Proto: "HTTP/1.1"}}
+			if order[i] == 0 {
+				o.fam, o.addr = "ipv6", fr.addr6
+				o.req.Self = "::1"
+			} else {
+				o.fam, o.addr = "ipv4", fr.addr4
+				o.local = net.IPv4(127, 0, 0, byte(order[i]))
+				o.req.Self = o.local.String()
+			}
+
 			tm := vc19Templates[rapid.IntRange(0, 3).Draw(t, "shape")]
 			o.shape = tm.name
 			o.tag = "r" + strconv.Itoa(round) + "q" + strconv.Itoa(i)
@@ -254,6 +261,38 @@ func TestVerifC19Concurrent(t *testing.T) {
 			segs[1] = o.tag
 			segs[2] = rapid.SampledFrom(vc19IDs).Draw(t, "enc")
 			o.req.Method = tm.method
+
+			// The first two are always forwardable; later ones may be requests
+			// that must be answered locally while the others are in flight
+			// (exactly one component of a documented shape changed).
+			if i >= 2 && rapid.IntRange(0, 4).Draw(t, "local-member") == 0 {
+				o.local404 = true
+				o.shape = "local"
+				switch rapid.IntRange(0, 5).Draw(t, "local-kind") {
+				case 0:
+					o.req.Method = rapid.SampledFrom([]string{"DELETE", "PUT", "HEAD", "get", "post"}).Draw(t, "local-method")
+				case 1:
+					segs = append(segs, "more")
+					if len(segs) == 4 {
+						segs = append(segs, "stuff")
+					}
+				case 2:
+					segs[0] += "x"
+				case 3:
+					segs = segs[:2]
+				case 4:
+					if o.req.Method == http.MethodGet {
+						segs[0] = "ddns"
+					} else {
+						o.req.Method, segs = http.MethodPost, []string{"linkip", o.tag, "enc", "status"}
+					}
+				default:
+					segs[2] = ".."
+				}
+			} else {
+				nFwd++
+			}
+
 			o.req.RawPath = "/" + strings.Join(segs, "/")
 			o.req.Target = o.req.RawPath
 			if rapid.IntRange(0, 3).Draw(t, "query") == 0 {
@@ -267,18 +306,11 @@ func TestVerifC19Concurrent(t *testing.T) {
 			vc19GenHeaders(t, o.req)
 			anyForged = anyForged || len(o.req.Forged) > 0
 
-			if order[i] == 0 {
-				o.fam, o.addr = "ipv6", fr.addr6
-			} else {
-				o.fam, o.addr = "ipv4", fr.addr4
-				o.local = net.IPv4(127, 0, 0, byte(order[i]))
-			}
-
 			o.wire = o.req.vc19Bytes(o.tag)
 			ones[i] = o
 		}
 
-		tapGate, backGate := vc19NewGate(k), vc19NewGate(k)
+		tapGate, backGate := vc19NewGate(k), vc19NewGate(nFwd)
 		if old := backend.arm(backGate); len(old) != 0 {
 			t.Fatalf("harness anomaly: backend got %d requests between rounds: %+v", len(old), old)
 		}
@@ -371,7 +403,7 @@ func TestVerifC19Concurrent(t *testing.T) {
 			byTag[tag] = append(byTag[tag], rec)
 		}
 
-		forwarded := 0
+		forwarded, nLocal := 0, 0
 		peersAtBackend := map[netip.Addr]struct{}{}
 		for _, o := range ones {
 			if o.err != nil {
@@ -380,6 +412,20 @@ func TestVerifC19Concurrent(t *testing.T) {
 
 			rs := byTag[o.tag]
 			delete(byTag, o.tag)
+			if o.local404 {
+				if len(rs) != 0 {
+					t.Fatalf("backend contacted with %s %q for a request that is none of the four documented shapes; %s", rs[0].Method, rs[0].URI, desc(o))
+				}
+
+				if o.resp.Status != http.StatusNotFound {
+					t.Fatalf("not forwarded, but answered with status %d body %q instead of 404; %s", o.resp.Status, o.resp.Body, desc(o))
+				}
+
+				nLocal++
+
+				continue
+			}
+
 			if len(rs) == 0 {
 				// Whether a valid shape must be forwarded is not part of the
 				// property; counted only.
@@ -416,12 +462,8 @@ func TestVerifC19Concurrent(t *testing.T) {
 					cip[0], o.peer, vc19Peers(ones), rec.Hdr, desc(o))
 			}
 
-			for _, name := range vc19FwdNames {
-				for _, v := range rec.Hdr.Values(name) {
-					if vc19HasMarker(v) {
-						t.Fatalf("forwarded request carries client-supplied %s: %q; backend headers %v; %s", name, v, rec.Hdr, desc(o))
-					}
-				}
+			if name, v, bad := vc19ForgedAtBackend(o.req, rec.Hdr); bad {
+				t.Fatalf("forwarded request carries client-supplied %s: %q; backend headers %v; %s", name, v, rec.Hdr, desc(o))
 			}
 		}
 
@@ -449,10 +491,14 @@ func TestVerifC19Concurrent(t *testing.T) {
 			classes = append(classes, "round-has-ipv4-and-ipv6")
 		}
 
+		if nLocal > 0 {
+			classes = append(classes, "round-has-locally-answered-member")
+		}
+
 		key := ""
 		if backArrived >= 2 && forwarded >= 2 && len(peersAtBackend) >= 2 {
 			classes = append(classes, "overlap>=2-distinct-peers")
-			if backArrived == k {
+			if backArrived == nFwd {
 				classes = append(classes, "overlap=all")
 			}
 
